@@ -352,6 +352,12 @@ fn scalar_digest(s: &Scalar4) -> u64 {
 impl C05 {
     fn exec<G: GraphLike>(&self, sc: &Sc, exec: Decider, out: &mut RunOut) -> Decider {
         let mut dec = exec;
+        // sticky randomness in one run of twelve (see Decider::sticky): the random drivers meet
+        // streaks of equal draws
+        if dec.coin("rng.mode", 1, 12) {
+            dec.sticky = 1 + dec.choose("rng.mem", 3) as u8;
+            out.probe("sticky_randomness");
+        }
         // ---- build the diagram and the expected value ------------------------------
         let (g, expected): (G, Option<Vec<Val>>) = match &sc.kind {
             Kind::Circuit(c, bits) => {
